@@ -57,31 +57,32 @@ theorem C02_option_unknown (enc : Enc) :
 
 example : structFinish [([97], .opt .i64), ([98], .str)] 0 [(1, .str [120])] = .ok [([97], .none), ([98], .str [120])] := by rfl
 
-/- Full statement (growth): for every save-style document `d` — scalars, objects, arrays AND header
-values such as `rgb { 1 2 3 }` — every encoding and every root target type that requests the
-document's shape, `deStream enc ty (lexemes d) = valueOf enc ty d`.
-Proved below for documents without header values (`TextDoc.Node` has no header constructor yet; header
-values are covered by the correspondence runs and the implementation-side oracles only).  Everything
-else is at full strength: typed scalars, strings, enums, `Option`, `Property` with every operator,
-sequences, maps, structs with missing / duplicated / unknown fields where the unknown field's value is
-skipped at arbitrary nesting, error results included (the two sides agree on which error comes first). -/
-/-- The streaming deserializer, run on the reader tokens of a document, returns the document's value. -/
-theorem C02_stream_eq_spec_partial (enc : Enc) (ty : Ty) (d : Doc)
-    (hroot : Ty.isRoot ty = true) (hfit : Fits enc ty (.obj d)) :
+/-- The streaming deserializer, run on the reader tokens of a save-style document (scalars, objects,
+arrays, header values such as `rgb { 1 2 3 }`), returns the document's value, for every encoding and
+every root target type that requests the document's shape: typed scalars, strings, enums, `Option`,
+`Property` with every operator, sequences, maps, structs with missing / duplicated / unknown fields
+(the unknown field's value is skipped at arbitrary nesting); error results included (the two sides
+agree on which error comes first).  A header value read with a scalar target yields the header's name,
+its body is skipped in key position (that is what the code does; reading it as a sequence is the
+recorded finding `text-reader-header` and outside `Fits`); inside an array a header value counts as
+two values (`expandNodes`). -/
+theorem C02_stream_eq_spec (enc : Enc) (ty : Ty) (d : Doc)
+    (hroot : Ty.isRoot ty = true) (hwf : wfFields d = true) (hfit : Fits enc ty (.obj d)) :
     deStream enc ty (lexemes d) = valueOf enc ty d :=
-  deStream_eq_valueOf enc ty d hroot hfit
+  deStream_eq_valueOf enc ty d hroot hwf hfit
 
-/-- the hypotheses are satisfiable by a document with a nested unknown field, a Property with an
-operator, a missing Option and a sequence:  `a > 12  zz = { q = { r } }  l = { x y }` -/
+/-- the hypotheses are satisfiable by a document with a nested unknown field whose value holds a header
+value, a Property with an operator, a missing Option and a sequence:
+`a > 12  zz = { q = rgb { r } }  l = { x "y" }` -/
 example :
     let d : Doc := [([97], .gt, .leaf ⟨[49, 50], false⟩),
-                    ([122, 122], .eq, .obj [([113], .eq, .arr [.leaf ⟨[114], false⟩])]),
+                    ([122, 122], .eq, .obj [([113], .eq, .hdr [114, 103, 98] (.arr [.leaf ⟨[114], false⟩]))]),
                     ([108], .eq, .arr [.leaf ⟨[120], false⟩, .leaf ⟨[121], true⟩])]
     let ty : Ty := .st [([97], .prop .i64), ([108], .seq .str), ([111], .opt .bool)]
-    Ty.isRoot ty = true ∧ Fits .w1252 ty (.obj d) ∧
+    Ty.isRoot ty = true ∧ wfFields d = true ∧ Fits .w1252 ty (.obj d) ∧
     deStream .w1252 ty (lexemes d) =
       .ok (.st [([97], .prop .gt (.int 12)), ([108], .seq [.str [120], .str [121]]), ([111], .none)]) := by
-  refine ⟨rfl, ?_, by rfl⟩
+  refine ⟨rfl, rfl, ?_, by rfl⟩
   apply Fits.st
   intro k o v hm i t hl
   simp only [List.mem_cons, Prod.mk.injEq, List.not_mem_nil, or_false] at hm
@@ -99,7 +100,7 @@ example :
     subst this
     apply Fits.seq
     intro v hv
-    simp only [List.mem_cons, List.not_mem_nil, or_false] at hv
+    simp only [expandNodes, List.mem_cons, List.not_mem_nil, or_false] at hv
     rcases hv with rfl | rfl <;> exact Fits.scalar rfl
 
 /- Full statement (growth): for every save-style document `d` and every root target type that requests
@@ -130,7 +131,7 @@ theorem C02_paths_agree_partial (enc : Enc) (fs : List (Bytes × Ty)) (d : Doc)
     (hflat : FlatFields d) (hty : ∀ n t, (n, t) ∈ fs → Ty.isFieldScalarTy t = true) :
     deTape enc (.st fs) (tapeOf d) = deStream enc (.st fs) (lexemes d) := by
   rw [deTape_flat_struct enc fs d hflat hty,
-    deStream_eq_valueOf enc (.st fs) d rfl (fits_flat_struct enc fs d hflat hty)]
+    deStream_eq_valueOf enc (.st fs) d rfl (flat_wf d hflat) (fits_flat_struct enc fs d hflat hty)]
 
 example : deTape .w1252 (.st [([97], .bool)]) (tapeOf [([97], Op.eq, Node.leaf ⟨[121, 101, 115], false⟩)]) = .ok (.st [([97], .bool true)]) ∧
     deStream .w1252 (.st [([97], .bool)]) (lexemes [([97], Op.eq, Node.leaf ⟨[121, 101, 115], false⟩)]) = .ok (.st [([97], .bool true)]) := by
